@@ -17,6 +17,7 @@ def check(tree, rep, tier='quick', seed=0):
     R.k12_schedule_once(core, rep)
     R.k12c_who_calls(core, rep)
     R.k13c_unknown_line_aborts(core, rep)
+    R.k2_signal_discipline(core, rep)    # each signal is handled once, in place (load the specification, retry the same line - no re-queueing)
     R.k15_no_live_generator(core, rep)
     R.k8_input_store_writes(core, rep)
     R.k7_missing_key_raises(core, rep)   # a stored line never reads as missing again (a released waiter would wait forever)
